@@ -69,6 +69,8 @@ func init() {
 		{"C17", "entropy", props.C17entropy},
 		{"C18", "puts", props.C17puts},
 		{"C12", "signedread", props.SignedReads},
+		{"C12", "boundvalue", props.BoundValueIsNamedValue},
+		{"C03", "boundvalue", props.BoundValueIsNamedValue},
 		{"C03", "signedread", props.SignedReads},
 		{"C09", "levels", props.LevelsKeepOrder},
 		{"C09", "deadoutput", props.DeadNotOutput},
